@@ -166,6 +166,25 @@ GXKEYS = ("id", "files", "patterns", "output", "flags", "version", "build_info",
           "no_input_flag", "extra_args")
 
 
+def _mark(s):
+    """a str that is not encodable as UTF-8 (lone surrogates from surrogateescape) travels as the hex marker gxtool understands"""
+    if isinstance(s, str):
+        try:
+            s.encode("utf-8")
+        except UnicodeEncodeError:
+            return "\ue000HEX:" + s.encode("utf-8", "surrogateescape").hex()
+    return s
+
+
+def _wire(c):
+    d = {k: c[k] for k in GXKEYS if k in c}
+    d["files"] = [dict({k_: v_ for k_, v_ in f.items() if k_ in ("path", "content", "dir", "mode", "link")}, content=_mark(f.get("content", "")), path=_mark(f["path"])) for f in d.get("files", [])]
+    d["patterns"] = [_mark(p) for p in d.get("patterns", [])]
+    if "output" in d:
+        d["output"] = _mark(d["output"])
+    return d
+
+
 def gx_run(d, cases, timeout=600, jobs=None):
     """Run gxtool on a list of case dicts (parallel shards); returns list of observation dicts in order."""
     if not cases:
@@ -175,7 +194,7 @@ def gx_run(d, cases, timeout=600, jobs=None):
     procs = []
     tmpbase = os.path.join("/dev/shm", "gvtmp_%d" % os.getpid())
     for k, sh in enumerate(shards):
-        data = "\n".join(json.dumps({k: c[k] for k in GXKEYS if k in c}) for c in sh) + "\n"
+        data = "\n".join(json.dumps(_wire(c)) for c in sh) + "\n"
         p = subprocess.Popen([os.path.join(d, "gxtool"), "run", tmpbase + "_%d" % k], stdin=subprocess.PIPE,
                              stdout=subprocess.PIPE, stderr=subprocess.PIPE, text=True, env=GOENV)
         procs.append((p, data))
@@ -216,6 +235,9 @@ def gx_run(d, cases, timeout=600, jobs=None):
     for k in range(jobs):
         for j, o in enumerate(per[k]):
             res[k + j * jobs] = o
+    bad = [o for o in res if o is not None and o.get("harness_error")]
+    if bad:
+        raise RuntimeError("gxtool could not take a case (harness fault): %s" % bad[0]["harness_error"])
     # cases that were not reached because their process died or was stopped by the watchdog run again in fresh processes
     left = [i for i, o in enumerate(res) if o.get("skipped")]
     if left and len(left) < len(cases):
